@@ -2,6 +2,7 @@ import SlVerif.Drv.Gf128
 import SlVerif.Drv.Matrix
 import SlVerif.Drv.Math
 import SlVerif.Drv.Relay
+import SlVerif.Drv.Buffered
 /-
   sldriver: line-protocol server around the executable models.
   request:  `<ns> <op> <args…>`           (one line)
@@ -16,6 +17,7 @@ def dispatch (toks : List String) : IO String := do
   | "mat" :: rest => pure ((Drv.Matrix.handle rest).getD "!bad-op")
   | "math" :: rest => pure ((Drv.Math.handle rest).getD "!bad-op")
   | "relay" :: rest => pure ((Drv.Relay.handle rest).getD "!bad-op")
+  | "buf" :: rest => pure ((Drv.Buffered.handle rest).getD "!bad-op")
   | ["ping"] => pure "pong"
   | _ => pure "!bad-op"
 
